@@ -1,7 +1,7 @@
 #!/bin/sh
 # evaluates every seeded change under /tmp/out-*/N that has a patch but no check.json yet
 cd /verif
-for d in /tmp/out-C*/[12]; do
+for d in /tmp/out-C*/[1-5]; do
   [ -f $d/patch.diff ] || continue
   p=$(basename $(dirname $d) | sed 's/out-//'); n=$(basename $d)
   if [ ! -f $d/confirm.json ] || [ "$1" = "force" ]; then python3 tools/try_seed.py demo $p $n > $d/confirm.log 2>&1; fi
@@ -9,7 +9,7 @@ for d in /tmp/out-C*/[12]; do
 done
 python3 - <<'PY'
 import glob, json, os
-for d in sorted(glob.glob('/tmp/out-C*/[12]')):
+for d in sorted(glob.glob('/tmp/out-C*/[1-5]')):
     c = json.load(open(d+'/confirm.json')) if os.path.exists(d+'/confirm.json') else {}
     k = json.load(open(d+'/check.json')) if os.path.exists(d+'/check.json') else {}
     caught = {p: r['rc'] for p, r in k.items()}
